@@ -4,6 +4,8 @@ package sim
 
 const RaceBuild = false
 
-func raceDisable() {}
-func raceEnable()  {}
-func drainPools()  {}
+func raceDisable()     {}
+func raceEnable()      {}
+func drainPools()      {}
+func raceWorkerInit()  {}
+func betweenEpisodes() {}
